@@ -16,6 +16,7 @@ REPLAYERS = {
     "muwait_replay": ("Extract_MuWait.v", "_extract_muwait", ["Model/MuWaitReplay.vo"]),
     "semwait_replay": ("Extract_SemWait.v", "_extract_semwait", ["Model/SemWaitReplay.vo"]),
     "muxfer_replay": ("Extract_MuXfer.v", "_extract_muxfer", ["Model/MuXferReplay.vo"]),
+    "muall_replay": ("Extract_MuAll.v", "_extract_muall", ["Model/MuAllReplay.vo"]),
     "mudbg_replay": ("Extract_MuDbg.v", "_extract_mudbg", ["Model/MuDbgReplay.vo"]),
     "cvdbg_replay": ("Extract_CvDbg.v", "_extract_cvdbg", ["Model/CvDbgReplay.vo"]),
 }
